@@ -153,6 +153,16 @@ func typedValue(r *lib.Rng, tag string) json.RawMessage {
 }
 
 func genericValue(r *lib.Rng) json.RawMessage {
+	if r.Chance(1, 30) {
+		// a value whose JSON text is longer than 64 KiB (what TRIGGER, CHANNELNAMES or MIX are for an array of
+		// thousands of channels): it must be replayed and saved like any other (seed C16-18)
+		n := r.Range(17000, 30000)
+		big := make([]int, n)
+		for i := range big {
+			big[i] = 1000 + (i*7+n)%9000
+		}
+		return raw(big)
+	}
 	switch r.Intn(6) {
 	case 0:
 		return raw(r.Range(-1000, 1000))
